@@ -1554,6 +1554,14 @@ func (g *Gen) faultTx() Op {
 			f.ShardId = s.Id + 1
 		case 2:
 			f.DataId = "ffffffff-0000-4000-8000-000000000000"
+		case 7, 8:
+			// the data id of another existing model with this model's order and shard
+			for _, m2 := range li.metas {
+				if m2.DataId != ord.DataId {
+					f.DataId = m2.DataId
+					break
+				}
+			}
 		case 3:
 			f.OrderId = ord.Id + 1
 		case 4:
